@@ -1,13 +1,20 @@
 /-
-  C05 — Update is a read-modify-write with an exactly-once callback (sequential half).
+  C05 — Update is a read-modify-write with an exactly-once callback.
 
-  In the model an Update returns `Out.callback arg`: the single place in
+  Sequential half: in the model an Update returns `Out.callback arg`: the single place in
   `Leaf.upsert` where the callback function is applied, on each of the three leaf
-  paths, is reached exactly once per call; the concurrent half (atomicity under
-  interleaving) is decided by the linearizability oracle and the small-step model
-  (see DESIGN.md, C05).
+  paths, is reached exactly once per call (`C05_update_seq`, `C05_counter_seq`).
+  Concurrent half (`C05_update_atomic_partial`, programs without Delete — the full statement
+  follows C03's): in the history that is proved linearizable the response of an Update IS the
+  argument its callback received, so linearizability w.r.t. `Spec` (where
+  `update k f` returns `lookup k` and stores `f (lookup k)`) says exactly: the callback sees
+  the value current at the operation's linearization point and its result is what that point
+  stores — an atomic read-modify-write, under every schedule.  Per stretch:
+  `C05_callback_at_leaf_partial` — the only block that invokes the callback is the leaf step,
+  run while holding the leaf, with argument `Spec.lookup` of the abstract map at that moment.
 -/
 import Gobptree.Proofs.RunOk
+import Gobptree.Proofs.CFinal
 
 namespace Gobptree
 
@@ -45,5 +52,43 @@ theorem C05_counter_seq (hp : ParamsOk lt P) (k : K) (n : Nat) :
 
 end Gobptree
 
+namespace Gobptree.Conc
+open Gobptree
+
+variable {K V : Type}
+
+/-- **C05 (concurrent, programs without Delete): Update is atomic under every schedule.** The
+    history whose Update responses are the callback arguments is linearizable w.r.t. the
+    specification in which `update k f` observes `lookup k` and stores `f (lookup k)` in one
+    step. -/
+theorem C05_update_atomic_partial (lt : K → K → Bool) (P : Params K) (tree : Tree K V)
+    (progs : List (List (COp K V)))
+    (hkp : KParams lt P) (ht : TreeOk none tree) (hord : OrdTree lt tree) (ho : tree.order = P.order)
+    (hp : PadOk P) (hd : Disciplined progs) (hnd : NoDelete progs)
+    (c : Config K V) (hr : Reachable (Config.init P tree progs) c) :
+    Lin.Linearizable lt tree.abs (history c) ∧
+    (∀ (m : List (K × V)) (k : K) (f : Option V → V),
+      Spec.step lt m (Op.update k f) = (Spec.update lt m k f, Out.callback (Spec.lookup lt m k))) :=
+  ⟨linearizable_nodelete' lt P tree progs hkp ht hord ho hp hd hnd c hr, fun _ _ _ => rfl⟩
+
+/-- **C05 (per stretch): the callback is invoked at the leaf, with the current value.** Whenever
+    a stretch of an Insert/Update continuation appends a callback note, its argument is
+    `Spec.lookup` of the abstract map at the start of the stretch (structural rewrites before
+    the leaf step leave the map unchanged), and if the stretch returns, the map has become
+    `Spec.update … key f`. -/
+theorem C05_callback_at_leaf_partial (lt : K → K → Bool) (P : Params K) (t : Nat) (s : St K V)
+    (key : K) (f : Option V → V) (y : Option Bool) (parent index child : Nat) (H : List Lk) (hole : Option Nat)
+    (hkp : KParams lt P) (hpre : Pre P hole s) (hk : KontOk s.tree (.upChild key f y parent index child))
+    (hc : CursorOk s.tree false s.cursor) (hkpre : KontPre s.cursor (.upChild key f y parent index child))
+    (hcov : Covers H s.cursor (.upChild key f y parent index child))
+    (hord : OrdTree lt s.tree) (hpos : KPos lt s.tree (.upChild key f y parent index child)) :
+    AbsEffect lt t (.upChild key f y parent index child) s
+      (resume P t s (.upChild key f y parent index child)).1 (resume P t s (.upChild key f y parent index child)).2 :=
+  (resume_kpost_U lt P t s _ H hole rfl hkp hpre hk hc hkpre hcov hord hpos).1.eff
+
+end Gobptree.Conc
+
 #print axioms Gobptree.C05_update_seq
 #print axioms Gobptree.C05_counter_seq
+#print axioms Gobptree.Conc.C05_update_atomic_partial
+#print axioms Gobptree.Conc.C05_callback_at_leaf_partial
